@@ -177,6 +177,8 @@ def cq_bytes(b):
     """bytes -> Coq term of type `bytes` (list N)."""
     if isinstance(b, str):
         b = b.encode("utf-8")
+    if len(b) == 0:
+        return "(@nil N)"
     if len(b) > 0 and all(32 <= c < 127 and c != 34 for c in b):
         return '(s2b "%s")' % b.decode("ascii")
     return "[" + ";".join(str(c) for c in b) + "]%N"
